@@ -6,11 +6,26 @@ from tools.manifest_table import CHECKS, NOT_YET
 
 props = [json.loads(l) for l in open(os.path.join(HERE, 'properties.jsonl'))]
 ids = [p['id'] for p in props]
+# checks whose own generator / oracle pair is also driven by libFuzzer through a byte-backed choice sequence (DESIGN 16)
+STRUCTURED = {'C01', 'C02', 'C03', 'C04', 'C05', 'C06', 'C07', 'C08', 'C09', 'C10', 'C11', 'C12', 'C14', 'C16', 'C17', 'C19'}
+EXTRA = {
+ 'C01': ' A further stage decodes the same element on pairs of master table versions that define it with the same width but another scale / reference value, one after the other with the shared decoder object, in both orders.',
+ 'C10': ' Messages with 9..24 subsets are generated too, and two extractions are taken from one message object before either is encoded (each must equal the extraction encoded at once / taken from a freshly decoded message).',
+ 'C12': ' Section lengths are damaged by 1..250 octets in either direction.',
+ 'C13': ' Pools also hold twins: one WMO sequence with and without a local table that re-defines something it reaches (same master version, two table groups), and one element on two master versions that give it the same width but another scale / reference value.',
+ 'C15': ' A second complete enumeration covers every slice body of length 0..6 (thorough 0..8) over "-01: A" in three bracket contexts.',
+ 'C19': ' Sequences interleave mid-sequence to_bytes() observations (octet-aligned by construction) and in-place overwrites of earlier unsigned fields with the writes.',
+}
 checks = []
 for pid in ids:
     if pid not in CHECKS:
         continue
-    c = CHECKS[pid]
+    c = dict(CHECKS[pid])
+    c['text'] = c['text'] + EXTRA.get(pid, '')
+    if pid in STRUCTURED:
+        c['text'] += (' The same generator and oracle are additionally driven by coverage-guided campaigns (atheris / libFuzzer mutating the '
+                      'bytes behind the choice sequence, pybufrkit instrumented; quick 2 x 1500, thorough 8 x 25000 executions, half from an empty corpus).')
+        c['technique'] += '; coverage-guided fuzzing (atheris) of the same generator and oracle through a byte-backed choice sequence'
     checks.append({
         'property_id': pid,
         'quick_cmd': '/venv/bin/python /verif/run_check.py %s --tier quick' % pid,
@@ -31,10 +46,10 @@ m = {
               'baseline_off_cmd': 'cd /repo && /venv/bin/python -m pytest -ra -q -p no:cacheprovider --timeout=900 --continue-on-collection-errors',
               'source_commits': [], 'add_only': True},
     'engines': [{'name': 'pbt', 'path': '/verif/run_check.py', 'serves_properties': [c['property_id'] for c in checks],
-                 'kind_free_text': 'Hypothesis-driven generated search + exhaustive small-scope enumeration against an independent reference model (refbufr), sharded over processes; own time-boxed choice-sequence shrinker; atheris for the two character state machines (thorough)'}],
+                 'kind_free_text': 'Hypothesis-driven generated search + exhaustive small-scope enumeration against an independent reference model (refbufr), sharded over processes; own time-boxed choice-sequence shrinker; atheris (libFuzzer) on raw strings for the two character state machines and, through a byte-backed choice sequence, on the structured generators of 16 checks'}],
     'checks': checks,
     'not_applicable': na,
-    'notes': 'See DESIGN.md (sections 13-15: as built, defects and findings, sensitivity). Open known findings and the repaired defects (19 fix: commits in /repo) are listed in /verif/known_findings.txt; probes and regression inputs in /verif/corpus/; independently written breaking changes in /verif/seeded/; planted mutants and the reverts of every repair in /verif/mutants/ (results in RESULTS.json). No source hooks are needed: every observation point is public API.',
+    'notes': 'See DESIGN.md (sections 13-16: as built, defects and findings, sensitivity, third session). Open known findings and the repaired defects (21 fix: commits in /repo) are listed in /verif/known_findings.txt; probes and regression inputs in /verif/corpus/; 80 independently written breaking changes (two rounds) in /verif/seeded/, all killed by the quick check of their property; planted mutants and the reverts of every repair in /verif/mutants/ (results in RESULTS.json). No source hooks are needed: every observation point is public API.',
 }
 json.dump(m, open(os.path.join(HERE, 'MANIFEST.json'), 'w'), indent=1)
 try:
